@@ -17,7 +17,7 @@ type verdict int
 
 const (
 	mustReject verdict = iota // does not name an operator with that operator's digest under any reading
-	mustAccept                // exactly what a real client sends for an operator of the profile
+	mustAccept                // a login (event 1 / sub-event 3) whose Head.User is an operator of the profile and whose Body.Info.Password is exactly that operator's digest
 	either                    // names operator+digest but deviates elsewhere (codes, ill-typed other fields,
 	//                           duplicate / case-variant keys, hex case of the digest): refusal or acceptance are both fine
 )
@@ -184,9 +184,8 @@ func readFirst(raw []byte, users []wsx.User) reading {
 		if _, ok := exact(body, "Info"); !ok {
 			canon = false
 		}
-		if v, ok := exact(info, "User"); !ok || v != op.Name {
-			canon = false
-		}
+		// Body.Info.User plays no part: the operator is the one Head.User names (HEAD uses
+		// Info.User as a display name only and falls back to Head.User when it is unusable)
 		if _, ok := exact(info, "Password"); !ok {
 			canon = false
 		}
